@@ -15,6 +15,7 @@ import (
 	"time"
 
 	"github.com/lindb/common/pkg/ltoml"
+	flatMetricsV1 "github.com/lindb/common/proto/gen/v1/flatMetricsV1"
 	protoMetricsV1 "github.com/lindb/common/proto/gen/v1/linmetrics"
 
 	"github.com/lindb/lindb/config"
@@ -279,44 +280,76 @@ func (c *cluster) broker(name string) *brokerNode {
 // write routes one metric with the broker's shard iterator (jump hash of the tags hash over the shard count) and
 // writes it into that shard of the owning node. Returns the shard index.
 func (c *cluster) write(pm *protoMetricsV1.Metric) (int, error) {
-	block := node.Block(pm)
+	routes, err := c.writeMany([]*protoMetricsV1.Metric{pm})
+	if err != nil || len(routes) == 0 {
+		return -1, err
+	}
+	return routes[0].Shard, nil
+}
+
+// rowRoute: the shard a row of a batch was handed to, with the row's host / zone tag values
+type rowRoute struct {
+	Host, Zone string
+	Shard      int
+}
+
+// writeMany writes the points as ONE broker batch, the way a broker's write handler does: the pooled batch, its shard
+// group iterator and the (shared) family iterator of the real code route the rows.
+func (c *cluster) writeMany(pms []*protoMetricsV1.Metric) ([]rowRoute, error) {
 	batch := metric.NewBrokerBatchRows()
 	defer batch.Release()
-	if err := batch.TryAppend(func(row *metric.BrokerRow) error { row.FromBlock(block); return nil }); err != nil {
-		return 0, err
+	for _, pm := range pms {
+		block := node.Block(pm)
+		if err := batch.TryAppend(func(row *metric.BrokerRow) error { row.FromBlock(block); return nil }); err != nil {
+			return nil, err
+		}
 	}
+	var routes []rowRoute
 	it := batch.NewShardGroupIterator(int32(c.lay.NumShards))
-	shardIdx := -1
 	for it.HasRowsForNextShard() {
 		idx, famIt := it.FamilyRowsForNextShard(c.intervals[0].Interval)
-		shardIdx = idx
 		for famIt.HasNextFamily() {
 			familyTime, rows := famIt.NextFamily()
+			for i := range rows {
+				m := rows[i].Metric()
+				rr := rowRoute{Shard: idx}
+				var kv flatMetricsV1.KeyValue
+				for j := 0; j < m.KeyValuesLength(); j++ {
+					m.KeyValues(&kv, j)
+					switch string(kv.Key()) {
+					case "host":
+						rr.Host = string(kv.Value())
+					case "zone":
+						rr.Zone = string(kv.Value())
+					}
+				}
+				routes = append(routes, rr)
+			}
 			s := c.storage[c.lay.Place[idx]]
 			shard, ok := s.db.GetShard(models.ShardID(idx))
 			if !ok {
-				return idx, fmt.Errorf("shard %d not on node %s", idx, s.name)
+				return nil, fmt.Errorf("shard %d not on node %s", idx, s.name)
 			}
 			fam, err := shard.GetOrCrateDataFamily(familyTime)
 			if err != nil {
-				return idx, err
+				return nil, err
 			}
 			for i := range rows {
 				var buf []byte
 				w := &sliceWriter{b: &buf}
 				if _, err := rows[i].WriteTo(w); err != nil {
-					return idx, err
+					return nil, err
 				}
 				var br metric.StorageBatchRows
 				br.UnmarshalRows(buf)
 				srows := br.Rows()
 				if err := fam.WriteRows(srows); err != nil {
-					return idx, err
+					return nil, err
 				}
 			}
 		}
 	}
-	return shardIdx, nil
+	return routes, nil
 }
 
 type sliceWriter struct{ b *[]byte }
